@@ -475,9 +475,18 @@ def expected_tokens(step, pre):
     return tokens(pre)
 
 
-def check_step(step, pre, res, kids_before=None):
+def split_origin_ok(spec):
+    """`spec` (a head-marked tree about to be split) lets the outcome of boyd_split + raising be
+    stated per constituent: every constituent has exactly one head child (the documented
+    prerequisite "head marking") and carries a key that no other node carries"""
+    uids = [xget(c, "uid") for c in constituents(spec)]
+    return head_children_ok(spec) and None not in uids and len(set(uids)) == len(uids)
+
+
+def check_step(step, pre, res, kids_before=None, origin=None):
     """C04 contract of one transformation: `pre` spec of the tree it was applied
-    to, `res` the returned node.  None or (expected, observed)."""
+    to, `res` the returned node.  None or (expected, observed).
+    `origin`: for raising directly after boyd_split, the spec of the tree boyd_split was applied to."""
     if res is None:
         return ("returns the root of a well-formed tree", "returned None")
     n = len(tokens(pre))
@@ -514,6 +523,18 @@ def check_step(step, pre, res, kids_before=None):
         if post_bag != exp:
             return ({"constituents (one per token block)": _bag_labels(exp)},
                     {"constituents": _bag_labels(post_bag)})
+        if split_origin_ok(pre):
+            # "... of which raising removes all but THE head block": of the k > 1 block nodes that
+            # stand for one constituent exactly one is marked head block (raising keeps marked ones)
+            for c in constituents(pre):
+                k = len(tg.runs_of_set(tokset(c)))
+                if k < 2:
+                    continue
+                pieces = [p for p in constituents(post) if xget(p, "uid") == xget(c, "uid")]
+                heads = [sorted(tokset(p)) for p in pieces if xget(p, "head_block")]
+                if len(heads) != 1:
+                    return ({"head blocks of %s %s" % (c["l"], tg.runs_of_set(tokset(c))): "exactly one"},
+                            {"head blocks": heads, "tree": show(post)})
     elif fn == "raising":
         exp = [(xget(c, "uid"), c["l"]) for c in constituents(pre)
                if c is pre or not (xget(c, "split") and not xget(c, "head_block"))]
@@ -521,6 +542,13 @@ def check_step(step, pre, res, kids_before=None):
         if post_bag != exp:
             return ({"constituents (all but the non-head blocks)": _bag_labels(exp)},
                     {"constituents": _bag_labels(post_bag)})
+        if origin is not None and split_origin_ok(origin):
+            # boyd_split made one node per block, raising removed all but the head block:
+            # every constituent of the tree that was split is there exactly once again
+            if post_bag != label_bag(origin):
+                return ({"constituents after boyd_split + raising (those before the split)":
+                         _bag_labels(label_bag(origin))},
+                        {"constituents": _bag_labels(post_bag), "tree": show(post)})
     elif fn == "binarize":
         key = lambda p: (str(p[0]), str(p[1]))
         keyed_pre = sorted([p for p in pre_bag if p[0] is not None], key=key)
